@@ -399,6 +399,10 @@ class ModuleVistor(NodeVisitor):
             if ob is None:
                 current.report("cannot resolve re-exported name :"
                                         f'{modname}.{origin_name}', thresh=1)
+            elif isinstance(ob, model.Module) and not self._canAdoptModule(current, ob):
+                # A module can only live in a package that is not below it:
+                # keep it where it is and treat the import as a plain alias.
+                return False
             else:
                 if origin_module.all is None or origin_name not in origin_module.all:
                     self.system.msg(
@@ -410,6 +414,17 @@ class ModuleVistor(NodeVisitor):
                     ob.reparent(current, as_name)
                     return True
         return False
+
+    @staticmethod
+    def _canAdoptModule(current: model.Documentable, mod: model.Module) -> bool:
+        if not isinstance(current, model.Package):
+            return False
+        anc: Optional[model.Documentable] = current
+        while anc is not None:
+            if anc is mod:
+                return False
+            anc = anc.parent
+        return True
 
     def _importNames(self, modname: str, names: Iterable[ast.alias]) -> None:
         """Handle a C{from <modname> import <names>} statement."""
